@@ -12,35 +12,40 @@ class CheckDef(object):
     def make_world(self, cfg):
         from dsim import bootstrap
         bootstrap.setup()
-        if self.world == "array":
+        world = cfg.get("world", self.world)
+        if world == "array":
             from dsim.worlds.arrays import ArrayWorld
             return ArrayWorld(cfg, [self.prop])
-        if self.world == "dataset":
+        if world == "dataset":
             from dsim.worlds.datasets import DatasetWorld
             return DatasetWorld(cfg, [self.prop])
-        if self.world == "file":
+        if world == "file":
             from dsim.worlds.files import FileWorld
             return FileWorld(cfg, [self.prop])
-        raise ValueError(self.world)
+        raise ValueError(world)
 
     def gen_cfg(self, rng, tier):
-        if self.world == "array":
+        world = self.world
+        if self.prop == "C15":
+            # operand monitoring also rides on the Dataset and file histories (DESIGN 5.4)
+            world = rng.choices(["array", "dataset", "file"], [0.7, 0.2, 0.1])[0]
+        if world == "array":
             return array_cfg(rng, tier, self.prop, self.families)
-        if self.world == "dataset":
+        if world == "dataset":
             from dsim.worlds.datasets import dataset_cfg
             return dataset_cfg(rng, tier, self.prop)
         from dsim.worlds.files import file_cfg
         return file_cfg(rng, tier, self.prop)
 
     def nontrivial(self, rec):
-        if self.world == "array":
-            s = rec["summary"]
+        s = rec["summary"]
+        if "probes" in s:
             if self.prop == "C05":
                 return s["probes"] >= 1 and s["inplace"] >= 1
             if self.prop == "C15":
                 return s["ok"] >= 4 and s["live"] >= 2
             return s["ok"] >= 4
-        return rec["summary"].get("nontrivial", False)
+        return s.get("nontrivial", False)
 
     rule = ""
 
